@@ -1,7 +1,7 @@
 //! C19 — convenience accessors and coap-message views agree with raw state.
 
 use std::collections::BTreeMap;
-use std::convert::TryFrom;
+
 
 use coap_lite::error::InvalidObserve;
 use coap_lite::{
@@ -528,6 +528,7 @@ mod v02 {
     pub fn payload_with_len(p: &mut Packet, len: usize) -> usize {
         MutableWritableMessage::payload_mut_with_len(p, len).len()
     }
+    #[allow(deprecated)]
     pub fn payload_mut_fill(p: &mut Packet, x: u8) {
         for b in MutableWritableMessage::payload_mut(p) {
             *b = x;
